@@ -359,7 +359,7 @@ void xscalars(verif::Reader &r, XCtx &c, bool allow_nul, bool allow_long, bool f
 
 void xset_value(verif::Reader &r, XCtx &c, XArg &x, fg::Ty t, bool allow_long, bool force_nul = false) {
     x.kind = XK_VALUE;
-    if (fg::ty_is_int(t)) { x.v.set_int(t, fg::gen_int_bits(r, t)); x.ra = refx::Arg::plain(x.v.to_ref()); }
+    if (fg::ty_is_int(t)) { x.v.set_int(t, t == fg::T_CHAR8 && r.flag() ? r.range(0, 127) : fg::gen_int_bits(r, t)); x.ra = refx::Arg::plain(x.v.to_ref()); }
     else if (t == fg::T_BOOL) { x.v.set_bool(r.flag()); x.ra = refx::Arg::plain(x.v.to_ref()); }
     else {
         std::vector<uint32_t> cps; xscalars(r, c, true, allow_long, force_nul, cps);
@@ -453,8 +453,8 @@ std::string xgen_field(verif::Reader &r, XCtx &c, const XArg &x, int index) {
     auto ignored_letters = [&]() { if (r.chance(24)) { fcls = "feE"[r.range(0, 2)]; c.ignored = true; } };
     if (x.intlike()) {
         const ref::Arg &ia = x.ra.a;
-        bool as_char = r.chance(40);
         const bool char8 = x.kind == XK_VALUE && x.v.ty == fg::T_CHAR8;
+        bool as_char = r.chance(char8 && x.v.u < 0x80 ? 128 : 40);
         if (as_char && char8 && x.v.u >= 0x80) as_char = false;      // a char8_t is a UTF-8 code unit copied verbatim: only values whose encoding is that one byte
         if (as_char) {
             sp.cls = 'c'; if (char8) c.char8c = true;
